@@ -972,13 +972,21 @@ func c26RefOf(s *c26Shape) *c26Ref {
 }
 
 func c26MakeRef(s *c26Shape) *c26Ref {
-	n := s.slots() + 1 // + the context slot
+	// + the context slot
+	return c26MakeRefWith(s.slots()+1, func(markers []string) (string, string) {
+		sql, _, _, pan := c26Build(s, markers)
+		return sql, pan
+	})
+}
+
+// c26MakeRefWith builds the marker reference of a shape with n slots through the given builder call.
+func c26MakeRefWith(n int, build func(markers []string) (sql string, panicked string)) *c26Ref {
 	markers := make([]string, n)
 	for i := range markers {
 		markers[i] = c26Marker(i)
 	}
 	ref := &c26Ref{}
-	sql, _, _, pan := c26Build(s, markers)
+	sql, pan := build(markers)
 	if pan != "" {
 		ref.problem = "builder failed on marker values: " + pan
 	} else {
@@ -1063,6 +1071,39 @@ func c26CtxOf(s *c26Shape) string {
 	return "staging"
 }
 
+// c26Structure: clauses 1-3 of the oracle (tokenises, same token skeleton as the marker build, every literal is a
+// builder constant or decodes to the user string of its slot).
+func c26Structure(ref *c26Ref, sql string, slots []string, fail func(sig, msg string)) ([]c26Tok, bool) {
+	toks, lerr := c26Lex(sql)
+	if lerr != "" {
+		fail("C26:query-does-not-tokenise", lerr)
+		return nil, false
+	}
+	if !c26SameSkeleton(toks, ref.toks) {
+		sk := c26Skeleton(toks)
+		fail("C26:token-skeleton-changed", fmt.Sprintf("token skeleton %q differs from the skeleton of the shape %q", sk, ref.skeleton))
+		return nil, false
+	}
+	li := 0
+	for _, t := range toks {
+		if t.kind != 's' {
+			continue
+		}
+		slot := ref.slotOf[li]
+		if slot < 0 {
+			if t.val != ref.lits[li] {
+				fail("C26:constant-literal-changed", fmt.Sprintf("literal #%d decodes to %s, the builder's constant is %s", li, c26Q(t.val), c26Q(ref.lits[li])))
+				return nil, false
+			}
+		} else if t.val != slots[slot] {
+			fail("C26:literal-does-not-decode-to-user-string", fmt.Sprintf("literal %s decodes to %s, the user string is %s", c26Q(t.text), c26Q(t.val), c26Q(slots[slot])))
+			return nil, false
+		}
+		li++
+	}
+	return toks, true
+}
+
 // c26Check runs the whole oracle on one (shape, slot strings) case.
 func c26Check(rep *mc.Report, cnt *c26Counters, s *c26Shape, userSlots []string) {
 	atomic.AddInt64(&cnt.builds, 1)
@@ -1093,32 +1134,9 @@ func c26Check(rep *mc.Report, cnt *c26Counters, s *c26Shape, userSlots []string)
 		d["sql"] = c26Q(sql)
 		cnt.violate(sig, key, fmt.Sprintf("shape %s, user strings %v: %s; query: %s", shape, d["user_strings"], msg, c26Q(sql)), d)
 	}
-	toks, lerr := c26Lex(sql)
-	if lerr != "" {
-		fail("C26:query-does-not-tokenise", lerr)
+	toks, ok := c26Structure(ref, sql, slots, fail)
+	if !ok {
 		return
-	}
-	if !c26SameSkeleton(toks, ref.toks) {
-		sk := c26Skeleton(toks)
-		fail("C26:token-skeleton-changed", fmt.Sprintf("token skeleton %q differs from the skeleton of the shape %q", sk, ref.skeleton))
-		return
-	}
-	li := 0
-	for _, t := range toks {
-		if t.kind != 's' {
-			continue
-		}
-		slot := ref.slotOf[li]
-		if slot < 0 {
-			if t.val != ref.lits[li] {
-				fail("C26:constant-literal-changed", fmt.Sprintf("literal #%d decodes to %s, the builder's constant is %s", li, c26Q(t.val), c26Q(ref.lits[li])))
-				return
-			}
-		} else if t.val != slots[slot] {
-			fail("C26:literal-does-not-decode-to-user-string", fmt.Sprintf("literal %s decodes to %s, the user string is %s", c26Q(t.text), c26Q(t.val), c26Q(slots[slot])))
-			return
-		}
-		li++
 	}
 	// semantic part (skipped when a regexp slot is not a valid regexp: ClickHouse rejects such a query at
 	// run time, the structure has been checked above)
@@ -1421,6 +1439,14 @@ func TestVerifC26(t *testing.T) {
 		}
 	}
 	p4 := len(cases) - p1 - p23
+	// part 5: several filtered tags in one query (verif_c26_multi_test.go)
+	mcases, mShapes, mBounds := c26MCases()
+	nShapes += mShapes
+	for k, v := range mBounds {
+		rep.Bounds[k] = v
+	}
+	rep.Bounds["multi_tag_slot_strings"] = len(c26MStrings)
+	rep.Parts["part5_several_filtered_tags"] = map[string]any{"cases": len(mcases), "shapes": mShapes}
 	rep.Bounds["shapes"] = nShapes
 	rep.Parts["part1_full_strings_single_slot"] = map[string]any{"cases": p1}
 	rep.Parts["part2_3_all_shapes"] = map[string]any{"cases": p23}
@@ -1428,8 +1454,23 @@ func TestVerifC26(t *testing.T) {
 
 	var nontrivial int64
 	skeletons := sync.Map{}
-	c26Parallel(len(cases), func(i int) {
+	mskeletons := sync.Map{}
+	c26Parallel(len(cases)+len(mcases), func(i int) {
 		if mc.Expired() {
+			return
+		}
+		if i >= len(cases) {
+			c := mcases[i-len(cases)]
+			c26MCheck(rep, &cnt, c.shape, c.slots)
+			for _, u := range c.slots {
+				if strings.ContainsAny(u, "'\\\x00\n\xff") {
+					atomic.AddInt64(&nontrivial, 1)
+					break
+				}
+			}
+			if _, dup := mskeletons.LoadOrStore(c.shape, true); !dup {
+				rep.Outcome(c26MRefOf(c.shape).skeleton)
+			}
 			return
 		}
 		c := cases[i]
@@ -1460,10 +1501,10 @@ func TestVerifC26(t *testing.T) {
 	}
 	rep.Parts["totals"] = map[string]any{"builds": cnt.builds, "rows_evaluated": cnt.rows, "rows_asserted": cnt.semantic, "rows_left_open": cnt.open, "cases_with_invalid_regexp_structure_only": cnt.invalidRe}
 	// executions = real builder runs; transitions = WHERE evaluations on rows; states = distinct (shape, strings) cases
-	rep.AddCounts(cnt.builds, cnt.rows, int64(len(cases)), nontrivial)
+	rep.AddCounts(cnt.builds, cnt.rows, int64(len(cases)+len(mcases)), nontrivial)
 	cnt.flush(rep)
 	if err := rep.Write(); err != nil {
 		t.Fatal(err)
 	}
-	t.Logf("C26: shapes=%d cases=%d builds=%d rows=%d asserted=%d open=%d violations=%d", nShapes, len(cases), cnt.builds, cnt.rows, cnt.semantic, cnt.open, rep.NumViolations())
+	t.Logf("C26: shapes=%d cases=%d (multi-tag %d) builds=%d rows=%d asserted=%d open=%d violations=%d", nShapes, len(cases)+len(mcases), len(mcases), cnt.builds, cnt.rows, cnt.semantic, cnt.open, rep.NumViolations())
 }
